@@ -77,6 +77,10 @@ func outLast() any                               { return nil }
 
 //@ sweep safety C05
 
+// C01 (Query conforms to the SQL/JSON path rules) is stated as the conjunction of
+// the rules of the individual constructs: its check runs their obligations too.
+//@ umbrella C01 C07 C10 C11 C12 C13 C14 C15 C16 C17
+
 // The execution context is left as it was found by every step (DESIGN E4); what
 // a field carries decides which further properties rest on that frame.
 //@ frameprops Executor.innermostArraySize C01 C14
@@ -315,8 +319,8 @@ func outLast() any                               { return nil }
 //@ loop 1 invariant [C09 C14 C07] last-bound: exec.innermostArraySize == size
 //@ loop 1 invariant [C07 C20] no-pending: pendingErr() == nil && !pendingFailed() && resErr == nil && res != statusFailed
 //@ loop 1 invariant status: res == statusOK || res == statusNotFound
-//@ loop 1 invariant [C06] exists-mode-undecided: found == nil ==> res == statusNotFound
-//@ loop 2 invariant [C06] exists-mode-undecided: found == nil ==> res == statusNotFound
+//@ loop 1 invariant [C06 C07 C09 C11 C15] exists-mode-undecided: found == nil ==> res == statusNotFound
+//@ loop 2 invariant [C06 C07 C09 C11 C15] exists-mode-undecided: found == nil ==> res == statusNotFound
 //@ loop 2 invariant [C09 C14] last-bound: exec.innermostArraySize == size
 //@ loop 2 invariant [C14] in-bounds: 0 <= indexFrom && indexFrom <= index && indexTo < size && size == len(array)
 //@ loop 2 invariant [C07 C20] no-pending: pendingErr() == nil && !pendingFailed() && resErr == nil && res != statusFailed
@@ -388,14 +392,14 @@ func outLast() any                               { return nil }
 //@ props C01 C07 C15
 //@ loop 1 invariant [C07 C20 C05] no-pending: pendingErr() == nil && !pendingFailed() && err == nil && res != statusFailed
 //@ loop 1 invariant status: res == statusOK || res == statusNotFound
-//@ loop 1 invariant [C06 C15] exists-mode-undecided: found == nil ==> res == statusNotFound
+//@ loop 1 invariant [C06 C15 C07 C09 C11] exists-mode-undecided: found == nil ==> res == statusNotFound
 //@ loop 1 invariant [C09 C07] ise-restore: implies(deferActive("ignoreStructuralErrors"), deferObj[*Executor]("ignoreStructuralErrors") == exec && deferVal[bool]("ignoreStructuralErrors") == old(exec.ignoreStructuralErrors)) && implies(!deferActive("ignoreStructuralErrors"), exec.ignoreStructuralErrors == old(exec.ignoreStructuralErrors))
-//@ loop 1 invariant [C15] visit-each: node != nil && level >= first ==> ncalls(exec.executeItemOptUnwrapTarget) == loopEntry(ncalls(exec.executeItemOptUnwrapTarget)) + rangeindex + 1
+//@ loop 1 invariant [C15 C20 C09] visit-each: node != nil && level >= first ==> ncalls(exec.executeItemOptUnwrapTarget) == loopEntry(ncalls(exec.executeItemOptUnwrapTarget)) + rangeindex + 1
 //@ loop 1 invariant [C15] descend-each: level < last ==> ncalls(exec.executeAnyItem) == loopEntry(ncalls(exec.executeAnyItem)) + rangeindex + 1
 //@ loop 1 invariant [C15] collect-each: node == nil && found != nil && level >= first && level >= last ==> len(found.list) == loopEntry(len(found.list)) + rangeindex + 1
 //@ atcall executeItemOptUnwrapTarget assert [C15 C01] visit: arg_value == v && arg_node == node && arg_found == found && arg_unwrap == unwrapNext && (level >= first || (first == 4294967295 && last == 4294967295 && col == nil))
 //@ atcall executeItemOptUnwrapTarget assert [C07] below-anypath: ignoreStructuralErrors ==> exec.ignoreStructuralErrors
-//@ atcall executeAnyItem assert [C15] descend: level < last && arg_level == level+1 && arg_first == first && arg_last == last && arg_node == node && arg_found == found && sameSlice(arg_value, col) && arg_ignoreStructuralErrors == ignoreStructuralErrors && arg_unwrapNext == unwrapNext
+//@ atcall executeAnyItem assert [C15 C07] descend: level < last && arg_level == level+1 && arg_first == first && arg_last == last && arg_node == node && arg_found == found && sameSlice(arg_value, col) && arg_ignoreStructuralErrors == ignoreStructuralErrors && arg_unwrapNext == unwrapNext
 //@ ensures [C15] level-cut: level > last ==> r0 == statusNotFound && r1 == nil && ncalls(exec.executeItemOptUnwrapTarget) == 0 && ncalls(exec.executeAnyItem) == 0
 //@ ensures [C01] collect-cannot-fail: node == nil && found != nil ==> r0 != statusFailed && r1 == nil
 
@@ -584,7 +588,7 @@ func isUnknownSpec(a predOutcome) predOutcome {
 //@ atcall executeItemOptUnwrapResultSilent assert [C12 C10] operands: arg_value == value && (arg_node == left && arg_unwrap || arg_node == right && arg_unwrap == unwrapRightArg)
 //@ ensures [C12] local-lax-false: !exec.path.IsStrict() && r0 == predFalse && r1 == nil ==> forall(func(i int, j int) bool { return implies(0 <= i && i < len(lSeq.list) && 0 <= j && j < len(rSeq.list), dynret[predOutcome](callback, 0, ctx, pred, lSeq.list[i], rSeq.list[j]) == predFalse) })
 //@ ensures [C12] local-lax-unknown: !exec.path.IsStrict() && r0 == predUnknown && r1 == nil && pendingFailed() == false ==> forall(func(i int, j int) bool { return implies(0 <= i && i < len(lSeq.list) && 0 <= j && j < len(rSeq.list), dynret[predOutcome](callback, 0, ctx, pred, lSeq.list[i], rSeq.list[j]) != predTrue) })
-//@ ensures [C12 C01] local-strict-true: exec.path.IsStrict() && r0 == predTrue ==> forall(func(i int, j int) bool { return implies(0 <= i && i < len(lSeq.list) && 0 <= j && j < len(rSeq.list), dynret[predOutcome](callback, 0, ctx, pred, lSeq.list[i], rSeq.list[j]) != predUnknown) })
+//@ ensures [C12 C01 C10] local-strict-true: exec.path.IsStrict() && r0 == predTrue ==> forall(func(i int, j int) bool { return implies(0 <= i && i < len(lSeq.list) && 0 <= j && j < len(rSeq.list), dynret[predOutcome](callback, 0, ctx, pred, lSeq.list[i], rSeq.list[j]) != predUnknown) })
 //@ ensures [C12] local-strict-false: exec.path.IsStrict() && r0 == predFalse ==> forall(func(i int, j int) bool { return implies(0 <= i && i < len(lSeq.list) && 0 <= j && j < len(rSeq.list), dynret[predOutcome](callback, 0, ctx, pred, lSeq.list[i], rSeq.list[j]) == predFalse) })
 //@ ensures [C12] true-witness: r0 == predTrue && !exec.path.IsStrict() ==> ncalls(callback) >= 1 && callret[predOutcome](callback, 0) == predTrue
 //@ ensures [C10 C08] operand-failure-is-unknown: pendingFailed() ==> r0 == predUnknown
@@ -610,8 +614,8 @@ func isUnknownSpec(a predOutcome) predOutcome {
 //@ ensures [C07] missing-lax: is[map[string]any](value) && ncalls(exec.executeNextItem) == 0 && exec.ignoreStructuralErrors ==> r0 == statusNotFound && r1 == nil
 //@ ensures [C07] missing-strict: is[map[string]any](value) && ncalls(exec.executeNextItem) == 0 && !exec.ignoreStructuralErrors ==> r0 == statusFailed && (exec.verbose ==> r1 != nil && errIs(r1, ErrVerbose)) && (!exec.verbose ==> r1 == nil)
 //@ ensures [C07] unwrap-array: is[[]any](value) && unwrap ==> ncalls(exec.executeAnyItem) == 1 && callarg[uint32](exec.executeAnyItem, "level") == 1 && callarg[uint32](exec.executeAnyItem, "first") == 1 && callarg[uint32](exec.executeAnyItem, "last") == 1 && !callarg[bool](exec.executeAnyItem, "unwrapNext") && callarg[*valueList](exec.executeAnyItem, "found") == found && r0 == callret[resultStatus](exec.executeAnyItem, 0) && r1 == callret[error](exec.executeAnyItem, 1)
-//@ ensures [C07] mismatch-lax: !is[map[string]any](value) && !(is[[]any](value) && unwrap) && exec.ignoreStructuralErrors ==> r0 == statusNotFound && r1 == nil && ncalls(exec.executeNextItem) == 0
-//@ ensures [C07] mismatch-strict: !is[map[string]any](value) && !(is[[]any](value) && unwrap) && !exec.ignoreStructuralErrors ==> r0 == statusFailed && (r1 == nil || errIs(r1, ErrVerbose)) && (exec.verbose ==> r1 != nil) && ncalls(exec.executeNextItem) == 0
+//@ ensures [C07 C15] mismatch-lax: !is[map[string]any](value) && !(is[[]any](value) && unwrap) && exec.ignoreStructuralErrors ==> r0 == statusNotFound && r1 == nil && ncalls(exec.executeNextItem) == 0
+//@ ensures [C07 C15] mismatch-strict: !is[map[string]any](value) && !(is[[]any](value) && unwrap) && !exec.ignoreStructuralErrors ==> r0 == statusFailed && (r1 == nil || errIs(r1, ErrVerbose)) && (exec.verbose ==> r1 != nil) && ncalls(exec.executeNextItem) == 0
 //@ ensures [C07] member-only-if-present: ncalls(exec.executeNextItem) <= 1 && (ncalls(exec.executeNextItem) == 1 ==> is[map[string]any](value))
 
 //@ func (*Executor).execConstNode
@@ -628,14 +632,14 @@ func isUnknownSpec(a predOutcome) predOutcome {
 //@ func (*Executor).execLiteralConst
 //@ props C01
 //@ ensures [C01] exists-mode: node.Next() == nil && found == nil ==> r0 == statusOK && r1 == nil
-//@ ensures [C01] value: !(node.Next() == nil && found == nil) ==> ncalls(exec.executeNextItem) == 1 && callarg[any](exec.executeNextItem, "value") == ite(node.Const() == ast.ConstNull, any(nil), any(node.Const() == ast.ConstTrue)) && callarg[*valueList](exec.executeNextItem, "found") == found && r0 == callret[resultStatus](exec.executeNextItem, 0) && r1 == callret[error](exec.executeNextItem, 1)
+//@ ensures [C01 C09] value: !(node.Next() == nil && found == nil) ==> ncalls(exec.executeNextItem) == 1 && callarg[any](exec.executeNextItem, "value") == ite(node.Const() == ast.ConstNull, any(nil), any(node.Const() == ast.ConstTrue)) && callarg[*valueList](exec.executeNextItem, "found") == found && r0 == callret[resultStatus](exec.executeNextItem, 0) && r1 == callret[error](exec.executeNextItem, 1)
 
 //@ func (*Executor).execAnyKey
 //@ props C07 C15
-//@ ensures [C15 C07 C09] object: is[map[string]any](value) ==> ncalls(exec.executeAnyItem) == 1 && callarg[uint32](exec.executeAnyItem, "level") == 1 && callarg[uint32](exec.executeAnyItem, "first") == 1 && callarg[uint32](exec.executeAnyItem, "last") == 1 && !callarg[bool](exec.executeAnyItem, "ignoreStructuralErrors") && callarg[bool](exec.executeAnyItem, "unwrapNext") == exec.path.IsLax() && len(callarg[[]any](exec.executeAnyItem, "value")) == len(as[map[string]any](value)) && callarg[*valueList](exec.executeAnyItem, "found") == found && callarg[ast.Node](exec.executeAnyItem, "node") == node.Next() && r0 == callret[resultStatus](exec.executeAnyItem, 0) && r1 == callret[error](exec.executeAnyItem, 1)
+//@ ensures [C15 C07 C09 C10] object: is[map[string]any](value) ==> ncalls(exec.executeAnyItem) == 1 && callarg[uint32](exec.executeAnyItem, "level") == 1 && callarg[uint32](exec.executeAnyItem, "first") == 1 && callarg[uint32](exec.executeAnyItem, "last") == 1 && !callarg[bool](exec.executeAnyItem, "ignoreStructuralErrors") && callarg[bool](exec.executeAnyItem, "unwrapNext") == exec.path.IsLax() && len(callarg[[]any](exec.executeAnyItem, "value")) == len(as[map[string]any](value)) && callarg[*valueList](exec.executeAnyItem, "found") == found && callarg[ast.Node](exec.executeAnyItem, "node") == node.Next() && r0 == callret[resultStatus](exec.executeAnyItem, 0) && r1 == callret[error](exec.executeAnyItem, 1)
 //@ ensures [C07] unwrap-array: is[[]any](value) && unwrap ==> ncalls(exec.executeItemUnwrapTargetArray) == 1 && callarg[any](exec.executeItemUnwrapTargetArray, "value") == value && r0 == callret[resultStatus](exec.executeItemUnwrapTargetArray, 0) && r1 == callret[error](exec.executeItemUnwrapTargetArray, 1)
-//@ ensures [C07] mismatch-lax: !is[map[string]any](value) && !(is[[]any](value) && unwrap) && exec.ignoreStructuralErrors ==> r0 == statusNotFound && r1 == nil
-//@ ensures [C07] mismatch-strict: !is[map[string]any](value) && !(is[[]any](value) && unwrap) && !exec.ignoreStructuralErrors ==> r0 == statusFailed && (r1 == nil || errIs(r1, ErrVerbose)) && (exec.verbose ==> r1 != nil)
+//@ ensures [C07 C15] mismatch-lax: !is[map[string]any](value) && !(is[[]any](value) && unwrap) && exec.ignoreStructuralErrors ==> r0 == statusNotFound && r1 == nil
+//@ ensures [C07 C15] mismatch-strict: !is[map[string]any](value) && !(is[[]any](value) && unwrap) && !exec.ignoreStructuralErrors ==> r0 == statusFailed && (r1 == nil || errIs(r1, ErrVerbose)) && (exec.verbose ==> r1 != nil)
 
 //@ func (*Executor).execAnyArray
 //@ props C07 C15
@@ -741,7 +745,7 @@ func isUnknownSpec(a predOutcome) predOutcome {
 //@ requires node.Operator() == ast.UnaryPlus || node.Operator() == ast.UnaryMinus
 //@ loop 1 invariant [C20 C05] no-pending: pendingErr() == nil && !pendingFailed()
 //@ loop 1 invariant status: res == statusOK || res == statusNotFound
-//@ loop 1 invariant [C06] exists-mode-undecided: found == nil ==> res == statusNotFound
+//@ loop 1 invariant [C06 C07 C09 C11 C15] exists-mode-undecided: found == nil ==> res == statusNotFound
 //@ loop 1 invariant [C13] every-item: !(found == nil && node.Next() == nil) ==> ncalls(exec.executeNextItem) == loopEntry(ncalls(exec.executeNextItem)) + rangeindex + 1
 //@ atcall executeItemOptUnwrapResult assert [C13] operand: arg_value == value && arg_unwrap && arg_node == node.Operand()
 //@ atcall executeNextItem assert [C13] numeric-only: arg_found == found && (is[int64](v) || is[float64](v) || is[json.Number](v))
@@ -958,7 +962,7 @@ func isUnknownSpec(a predOutcome) predOutcome {
 //@ requires node != nil
 //@ loop 1 invariant [C20 C05] no-pending: pendingErr() == nil && !pendingFailed()
 //@ loop 1 invariant status: res == statusOK || res == statusNotFound
-//@ loop 1 invariant [C06] exists-mode-undecided: found == nil && rangeindex >= 0 ==> res != statusOK
+//@ loop 1 invariant [C06 C07 C09 C11 C15] exists-mode-undecided: found == nil && rangeindex >= 0 ==> res != statusOK
 //@ loop 1 invariant [C09 C16] base-restore: implies(deferActive("baseObject"), deferObj[*Executor]("baseObject") == exec && deferVal[kvBaseObject]("baseObject") == old(exec.baseObject)) && implies(!deferActive("baseObject"), exec.baseObject == old(exec.baseObject))
 //@ loop 1 invariant [C16] every-member: ncalls(exec.executeNextItem) == loopEntry(ncalls(exec.executeNextItem)) + rangeindex + 1
 //@ atcall executeNextItem assert [C16] triple: arg_found == found && is[map[string]any](arg_value) && as[map[string]any](arg_value)["id"] == any(id) && as[map[string]any](arg_value)["key"] == any(k) && fresh(as[map[string]any](arg_value))
@@ -1105,7 +1109,7 @@ func isUnknownSpec(a predOutcome) predOutcome {
 //@ ensures [C17] nonnil: r1 == nil ==> r0 != nil
 
 //@ func (*Executor).executeDateTimeMethod
-//@ alsoprops E3 C17 C10
+//@ alsoprops E3 C17 C10 C11
 //@ alsoprops E6-error-propagated C17
 //@ props C17 C08
 //@ requires node.Operator() >= ast.UnaryDateTime
